@@ -364,7 +364,7 @@ def c07():
     p = Prop("C07")
     p.smt_tasks.append(SmtTask("c07_grammar_tables", "c07_grammar.py", quick=True, timeout=1200, args=["3"], thorough_args=["5"]))
     p.smt_tasks.append(SmtTask("lexer_regex_c07", "c07_lexer.py", quick=True, timeout=300, args=["C07"]))
-    p.smt_tasks.append(SmtTask("c07_token_actions_mir", "c07_actions.py", quick=True, timeout=900, args=["6"], thorough_args=["10"]))
+    p.smt_tasks.append(SmtTask("c07_token_actions_mir", "c07_actions.py", quick=True, timeout=900, args=["6"], thorough_args=["6"]))   # lengths 8 and 10 were probed and did not finish within 3 and 5 minutes (z3's sequence solver); not registered
     for h, q in (("fold_len1", True), ("operation_names", True)):
         p.add("h_parse::parse_" + h, quick=q, timeout=900, drives=["AST::from_binary_expression", "AST::operation", "Identifier::from(Operator)"],
               bound="operator fold over 3 one-character operators (symbolic); method names of all 13 operators")
@@ -376,7 +376,7 @@ def c07():
                 "over identifier / number / true / false / null / this",
                 "lexer: regular-language equivalence, inclusion and disjointness queries without a length bound",
                 "token actions (MIR/z3 on the generated parser's __actionN functions): `String = STRING_LITERAL` yields the literal without its two delimiting "
-                "quotes and `Ident = IDENTIFIER` the identifier named by the token, for every ASCII token text of the token's regex up to 6 (quick) / 10 (thorough) "
+                "quotes and `Ident = IDENTIFIER` the identifier named by the token, for every ASCII token text of the token's regex up to 6 "
                 "characters, one run per length with every character symbolic; no panic reachable"]
     p.outside = ["the semantic actions of productions other than the operator fold and the string / identifier token actions (Rust closures the tables do not contain)",
                  "non-ASCII token texts in the token-action task (character and byte positions differ); the number token's action (`i32::from_str(..).unwrap()`)",
@@ -405,15 +405,14 @@ def c10():
     p.smt_tasks.append(VMK())
     p.smt_tasks.append(VMH())
     p.smt_tasks.append(PMIR())
-    p.smt_tasks.append(SmtTask("c10_print_graph_mir", "c15_print.py", quick=True, timeout=1500, args=["graph"], thorough_args=["graph-thorough"]))
+    p.smt_tasks.append(SmtTask("c10_print_graph_mir", "c15_print.py", quick=True, timeout=1500, args=["graph"], thorough_args=["graph"]))   # the wider shape `graph-thorough` (all five leaves, references to all five cells) exists in the task but its running time is not measured yet
     p.stubs = p.stubs + VMK_STUBS + PMIR_STUBS
     p.functions = VM_FUNCS + VMK_FUNCS + PRINT_FUNCS + PMIR_FUNCS
     p.bounds = VM_BOUNDS + PRINT_BOUNDS + PMIR_BOUNDS + ["print task: a print that fails (count mismatch, unknown escape) has written nothing, whatever its arguments are"]
     p.outside = VM_OUTSIDE + ["process exit status and stderr/stdout separation (main.rs), lexer/parser rejections",
                               "FML call depth 10^5 and source nesting depth 200 (CBMC cannot unwind that far)"]
     p.bounds = p.bounds + [
-        "value graphs (MIR/z3 task c10_print_graph_mir): print(\"~\", v) for every Pointer v over the 5-cell heap of the print task whose leaves e0, f0, p1 (quick; all five "
-        "leaves in the thorough tier) are any Pointer too, references included — every graph of that shape, cyclic ones included: the print terminates without a "
+        "value graphs (MIR/z3 task c10_print_graph_mir): print(\"~\", v) for every Pointer v over the 5-cell heap of the print task whose leaves e0, f0, p1 are any Pointer too, references included — every graph of that shape, cyclic ones included: the print terminates without a "
         "native crash (a value that reaches itself may fail or print anything; more than 3 * 5 + 1 nested evaluate_as_string activations on a value the reference "
         "finds cyclic is `unbounded recursion`, replayed natively: the process aborts on stack exhaustion), acyclic values print what C15 prescribes"]
     p.not_covered = VM_NOT_COVERED + ["acyclic chains of 10^3 links, FML call depth 10^5, source nesting depth 200 (native stack depth is not a bounded-shape question)"]
